@@ -99,7 +99,7 @@ theorem qsim_bump {P : Qp} {s t : St} (hR : StRq P s t) (e : Nat) {g : Frame →
   obtain ⟨b1, b2, b3, b4, b5, b6⟩ := hg ft
   refine ⟨⟨by rw [a2, b2]; exact hfr.outer, by rw [a3, b3]; exact hfr.depth,
     by rw [a4, b4]; exact hfr.cacheKey, by rw [a5, b5]; exact hfr.function,
-    by rw [a1, b1]; exact hfr.lk, by rw [b1]; exact hfr.cl, by rw [b1]; exact hfr.dirty, ?_, ?_⟩, ?_⟩
+    by rw [a1, b1]; exact hfr.lk, by rw [b1]; exact hfr.cl, by rw [b1, b3]; exact hfr.dirty, ?_, ?_⟩, ?_⟩
   · intro h
     obtain ⟨h1, h2⟩ := hfr.missNew h
     exact ⟨by rw [a6, b6, h1], hc fs ft h2⟩
@@ -279,7 +279,7 @@ theorem FrQ.setStore {P : Qp} {i : Nat} {fs ft fs' ft' : Frame} (h : FrQ P i fs 
     · simp only [hnn, if_false] at hl; exact h.cl n w hn hl
   · intro n hn
     have hnn : n ≠ name := fun hh => hnd (hh ▸ hn)
-    rw [b1, lookupStore_setStore]
+    rw [b1, b3, lookupStore_setStore]
     simp only [hnn, if_false]
     exact h.dirty n hn
   · intro hi
@@ -311,6 +311,11 @@ theorem clean_refTo {P : Qp} (o : Nat) (name : String) (obj : Obj) (hnd : ¬ P.D
   cases obj <;> first | exact hnd | exact hc
 
 /-! ### makeRef -/
+
+theorem runM_bind_getFrame_pure {st : St} {e : Nat} {f : Frame} (h : st.frames[e]? = some f) :
+    runM (do let __do_lift ← getFrame e; pure __do_lift.depth : M Nat) st = (.ok f.depth, st) := by
+  rw [runM_bind, runM_getFrame h]
+  rfl
 
 /-- the walk of `makeRef` for frame `orig`, a new frame.  When the name is all-caps the binding found cannot be
 dirty; otherwise `orig` is the quiet frame and finding a dirty binding moves its counter. -/
@@ -348,23 +353,37 @@ theorem qsim_makeRef_go {P : Qp} (orig : Nat) (name : String) (ho : P.σ.n0 ≤ 
         exact ih m' o s t hR (by omega) (by omega) (by omega) (by omega) hot
       | some obj =>
         by_cases hd : P.D o name
-        · -- a dirty binding: not an all-caps name, not a function, not a reference: the counter of `orig` moves
+        · -- a dirty binding: not an all-caps name, not a reference, not a function of a depth-0 frame: the counter of `orig` moves
           obtain ⟨hnc, v, hv, hvr, hvf⟩ := hfro.dirty name hd
           rw [hl] at hv; cases hv
           rcases hq with hq | hq
           · rw [hnc] at hq; cases hq
           · subst hq
-            refine SimQ.loud ?_
+            refine SimQ.loudAt ?_
             try dsimp only
-            refine Loud.bind_right (by tr) (fun _ => ?_)
             have hrt : refTo o name obj = Obj.ref o name := by
               cases obj <;> first | rfl | (simp [notRef] at hvr)
             rw [hrt]
             dsimp only
-            refine Loud.bind_right (by tr) (fun fo' => ?_)
-            refine Loud.bind_right (by tr) (fun rd => ?_)
-            simp only [hnc, hvf, Bool.false_and, Bool.not_false, Bool.and_self, if_true]
-            exact Loud.bind_left (Loud.modifyFrame (fun f => Nat.lt_succ_self _)) (by tr)
+            refine LoudAt.modifyFrame_bind (fun f => Nat.le_refl _) ?_
+            intro forig hforig
+            have hne : P.e ≠ o := by omega
+            have hfo1 : ∀ fr' : Frame, ({ t with frames := t.frames.setIfInBounds P.e fr' } : St).frames[o]? = some fto := by
+              intro fr'
+              show (t.frames.setIfInBounds P.e fr')[o]? = some fto
+              rw [Array.getElem?_setIfInBounds]
+              simp only [hne, if_false]
+              exact hto
+            refine LoudAt.bind_read (runM_getFrame (hfo1 _)) ?_
+            refine LoudAt.bind_read (runM_pure _ _) ?_
+            have hc : (!(isConstant name && fto.depth == 0) && !(isFuncObj obj && fto.depth == 0)) = true := by
+              rw [hnc]
+              rcases hvf with h | h
+              · rw [h]; rfl
+              · have : (fto.depth == 0) = false := by simpa using h
+                rw [this]; simp
+            simp only [hc, if_true]
+            exact (Loud.bind_left (Loud.modifyFrame (fun f => Nat.lt_succ_self _)) (by tr)).at _
         · rw [hfro.lk name hd, hl]
           have hco := hfro.cl name obj hd hl
           simp only [Option.map]
